@@ -44,7 +44,7 @@ type CSym struct {
 type SrvCase struct {
 	Cfg    SrvCfg `json:"cfg"`
 	Script []CSym `json:"script"`
-	End    string `json:"end"` // eof | silence
+	End    string `json:"end"` // eof (half-close) | wait | silence | close-now (vanish before the answer) | cut (reset)
 }
 
 type CBEntry struct {
@@ -131,6 +131,11 @@ var assignedNode = lime.Node{Identity: lime.Identity{Name: "assigned", Domain: "
 
 // authOutcome looks an outcome up in the table: key "scheme:cred", per-round list, last repeats; default unknown.
 func authOutcome(cfg *SrvCfg, scheme, cred string, round int) string {
+	if !containsStr(cfg.Schemes, scheme) {
+		// The application's authenticator trusts the server to hand it offered schemes only: whatever else reaches it is
+		// accepted, so that a missing check in the server shows as an established session (the model never asks for this).
+		return "member"
+	}
 	l := cfg.Auth[scheme+":"+cred]
 	if len(l) == 0 {
 		return "unknown"
@@ -379,7 +384,9 @@ func RunServerScript(c *SrvCase) *SrvObs {
 	}
 	for i := range c.Script {
 		sym := &c.Script[i]
-		synctest.Wait()
+		if !(c.End == "close-now" && i == len(c.Script)-1 && i > 0) {
+			synctest.Wait()
+		}
 		peer.Drain()
 		sample()
 		learnSid()
@@ -407,11 +414,18 @@ func RunServerScript(c *SrvCase) *SrvObs {
 			}
 		}
 	}
+	if c.End == "close-now" {
+		// the peer vanishes right after its last envelope, before the server can answer it
+		_ = peer.Raw.Close()
+	}
 	synctest.Wait()
 	peer.Drain()
 	sample()
 	learnSid()
 	switch c.End {
+	case "close-now":
+	case "cut":
+		peer.Raw.Cut() // abrupt: the server's read fails with a reset, not an orderly end of stream
 	case "silence":
 		time.Sleep(handshakeTimeout + time.Second)
 	case "wait":
